@@ -92,12 +92,75 @@ def refBits (st : DState) (name : String) : Option (List Bool) :=
       | some o => some ((List.range o.len).map fun i => o.runs.any fun r => r.1 ≤ i ∧ i < r.1 + r.2)
       | none => none
 
+/-! ### vectors beyond 2^32 bits
+
+A vector of `len` bits all equal to `fill` except at the (few, sorted) positions `flips`.  Neither the model's word
+array nor a `List Bool` reference is materialised at this size: the answers are computed in closed form from the
+description and used as BOTH the specification and the model column (so a disagreement is always reported as
+`impl ≠ spec`; the model's algorithms are not exercised at this size — the theorems are what covers it). -/
+namespace Huge
+def bitAt (len : Nat) (fill : Bool) (flips : List Nat) (i : Nat) : Bool := i < len && (fill != flips.contains i)
+def ones (len : Nat) (fill : Bool) (flips : List Nat) : Nat := if fill then len - flips.length else flips.length
+def rank (len : Nat) (fill : Bool) (flips : List Nat) (i : Nat) : Nat :=
+  let j := min i len
+  let f := (flips.filter (· < j)).length
+  if fill then j - f else f
+/-- position of the `r`-th bit equal to `b` -/
+def selectB (len : Nat) (fill : Bool) (flips : List Nat) (b : Bool) (r : Nat) : Option Nat :=
+  if fill == b then
+    let p := flips.foldl (fun p c => if c ≤ p then p + 1 else p) r
+    if p < len then some p else none
+  else flips[r]?
+def predB (len : Nat) (fill : Bool) (flips : List Nat) (x : Nat) : Option (Nat × Nat) :=
+  if len = 0 then none else
+  let x := min x (len - 1)
+  if fill then
+    -- walk down over flipped positions (at most `flips.length` steps)
+    let rec go : Nat → Nat → Option Nat
+      | 0, p => if flips.contains p then none else some p
+      | fuel + 1, p => if flips.contains p then (if p = 0 then none else go fuel (p - 1)) else some p
+    (go (flips.length + 1) x).map fun p => (rank len fill flips p, p)
+  else
+    ((flips.filter (· ≤ x)).getLast?).map fun p => (rank len fill flips p, p)
+def succB (len : Nat) (fill : Bool) (flips : List Nat) (x : Nat) : Option (Nat × Nat) :=
+  if x ≥ len then none else
+  if fill then
+    let rec go : Nat → Nat → Option Nat
+      | 0, _ => none
+      | fuel + 1, p => if p ≥ len then none else if flips.contains p then go fuel (p + 1) else some p
+    (go (flips.length + 2) x).map fun p => (rank len fill flips p, p)
+  else
+    ((flips.filter (· ≥ x)).head?).map fun p => (rank len fill flips p, p)
+end Huge
+
+def evalHuge (st : DState) (d : Nat × Bool × List Nat) (t : List String) : Eval :=
+  let (len, fill, flips) := d
+  let both (s : String) (r : String) : Eval := { st := st.note r, model := s, spec := some s }
+  match t with
+  | ["len"] => both (rNat len) "bv.huge"
+  | ["ones"] => both (rNat (Huge.ones len fill flips)) "bv.huge"
+  | ["zeros"] => both (rNat (len - Huge.ones len fill flips)) "bv.huge"
+  | ["get", i] => let i := num i
+    if i < len then both (rBool01 (Huge.bitAt len fill flips i)) "bv.huge" else { st := st, model := "*" }
+  | ["rank", i] => both (rNat (Huge.rank len fill flips (num i))) "bv.huge.rank"
+  | ["rank0", i] => let i := num i
+    if i ≤ len then both (rNat (i - Huge.rank len fill flips i)) "bv.huge.rank" else { st := st, model := "*" }
+  | ["select", r] => both (rOptNat (Huge.selectB len fill flips true (num r))) "bv.huge.select"
+  | ["select0", r] => both (rOptNat (Huge.selectB len fill flips false (num r))) "bv.huge.select"
+  | ["pred", x] => both (rOptPair (Huge.predB len fill flips (num x))) "bv.huge.pred"
+  | ["succ", x] => both (rOptPair (Huge.succB len fill flips (num x))) "bv.huge.succ"
+  | _ => { st := st, model := "driver:unknown-huge-op" }
+
 def evalBv (st : DState) (name : String) (t : List String) : Eval :=
   let m := st.mode
   let put (o : BvObj) (regime : String := "") : Eval :=
     { st := { (if regime = "" then st else st.note regime) with bvs := st.bvs.insert name o },
       model := s!"{o.m.len} {o.m.countOnes}", spec := some s!"{o.s.length} {o.s.count true}" }
   match t with
+  | "huge" :: len :: fill :: _sup :: flips =>
+    let len := num len; let fill := fill == "1"; let flips := flips.map num
+    let s := s!"{len} {Huge.ones len fill flips}"
+    { st := { (st.note "bv.huge") with huges := st.huges.insert name (len, fill, flips), bvs := st.bvs.erase name }, model := s, spec := some s }
   | "from_raw" :: len :: ws => let len := num len; let ws := ws.map num
     put ⟨BitVector.ofRaw (rawFromWords len ws), bitsFromWords len ws⟩ "bv.from_raw"
   | ["ref", bits] =>
@@ -120,7 +183,9 @@ def evalBv (st : DState) (name : String) (t : List String) : Eval :=
 where
   evalBvQ (st : DState) (name : String) (t : List String) (m : Mode) : Eval :=
     match st.bvs[name]? with
-    | none => { st := st, model := "panic:no-object" }
+    | none => (match st.huges[name]? with
+        | some d => evalHuge st d t
+        | none => { st := st, model := "panic:no-object" })
     | some o =>
       let b := o.m
       let B := o.s
